@@ -107,7 +107,7 @@ func isEmbeddable(t reflect.Type) bool {
 	if _, ok := customBase[t]; ok {
 		return false
 	}
-	return true
+	return !selfBase[t]
 }
 
 func walk(t reflect.Type, prefix string, path []string, groups []string, out *[]*leaf) {
@@ -131,6 +131,9 @@ func walk(t reflect.Type, prefix string, path []string, groups []string, out *[]
 		}
 		l := &leaf{path: p, typ: f.Type, serializer: strings.ToLower(tag["SERIALIZER"]), ptrGroups: groups, ord: len(*out)}
 		l.class, l.wrap = classOf(f.Type, l.serializer)
+		if l.class == "self" {
+			l.serializer = "self" // the type is its own serializer: no tag
+		}
 		if c, ok := tag["COLUMN"]; ok {
 			l.col = prefix + c
 		} else {
@@ -266,7 +269,9 @@ func (g *gen) pickKind(allowCustom bool) kind {
 	r := g.r
 	for {
 		var k kind
-		switch r.Intn(10) {
+		switch r.Intn(11) {
+		case 10:
+			k = core.Pick(r, selfKinds)
 		case 0, 1, 2:
 			k = core.Pick(r, scalarKinds)
 		case 3, 4:
@@ -278,7 +283,7 @@ func (g *gen) pickKind(allowCustom bool) kind {
 		default:
 			k = core.Pick(r, serializerKinds)
 		}
-		if !allowCustom && (len(k.tags) > 0 || customBase[k.typ] != "" || (k.typ.Kind() == reflect.Ptr && customBase[k.typ.Elem()] != "")) {
+		if !allowCustom && (len(k.tags) > 0 || customBase[k.typ] != "" || isSelf(k.typ) || (k.typ.Kind() == reflect.Ptr && customBase[k.typ.Elem()] != "")) {
 			continue
 		}
 		return k
@@ -372,7 +377,13 @@ func (g *gen) embeddedType(depth int, inPtr bool) reflect.Type {
 	var sf []reflect.StructField
 	for i := 0; i < n; i++ {
 		nc := innerPool[names[i]]
-		sf = append(sf, g.leafField(nc, g.pickKind(true), inPtr))
+		k := g.pickKind(true)
+		for inPtr && k.name == "self:*SelfJS" {
+			// a sibling's default / auto time materialises a nil embedded pointer and would leave this
+			// field a typed nil pointer; that input is exercised separately (see nilSelfProbe)
+			k = g.pickKind(true)
+		}
+		sf = append(sf, g.leafField(nc, k, inPtr))
 	}
 	if depth < 2 && r.Chance(1, 4) {
 		ptr := r.Chance(1, 3)
